@@ -184,7 +184,7 @@ func ParseStreamCallback variant walk
   // the frame is the callback's: besides objects the parse allocates itself only the reporters' state changes
   modifies captured(callback, t), captured(callback, ok), captured(callback, ln)
   modifies heap(shared.TreeNode), maps(string, *shared.TreeNode), heap(balance.balanceSingleReporter), arrays(float64), maps(string, shared.AccValues), maps(string, bool), maps(string, float64)
-  modifies ghost(cbLen, cbErr, cbNode, cbStop, cbRet, cbLineNo, cbLine, cbHeader, cbElems, cbNElems, scRd, scPos, privLo, evOf, accKey, accP, accN, accH, bufSticky, sinkFailed, sinkPend, prLen, prSink, prArg, prArgs, tnodes, tdepth, tmax, tmapOf, jlen)
+  modifies ghost(cbLen, cbErr, cbNode, cbStop, cbRet, cbLineNo, cbLine, cbHeader, cbElems, cbNElems, scRd, scPos, privLo, evOf, accKey, accP, accN, accH, bufSticky, sinkFailed, sinkPend, prLen, prSink, prArg, prArgs, csvLen, csvW, csvN, csvRow, tnodes, tdepth, tmax, tmapOf, jlen)
   let R := captured(callback, r)
   let B := RepBuf(captured(callback, r))
   ensures @fails-on-malformed [C09] result == nil ==> (forall i int :: {RdLine(rd, i)} 0 <= i && i < RdN(rd) ==> !Malformed(rd, i, cc))
@@ -211,7 +211,7 @@ func ParseStreamCallback variant csvdb
   bind callback = csv.CSVDatabase$1
   props C08 C09 C10 C17
   requires @writer captured(callback, r).output != nil
-  modifies ghost(cbLen, cbErr, cbNode, cbStop, cbRet, cbLineNo, cbLine, cbHeader, cbElems, cbNElems, scRd, scPos, privLo, evOf, bufSticky, sinkFailed, sinkPend)
+  modifies ghost(cbLen, cbErr, cbNode, cbStop, cbRet, cbLineNo, cbLine, cbHeader, cbElems, cbNElems, scRd, scPos, privLo, evOf, bufSticky, sinkFailed, sinkPend, csvLen, csvW, csvN, csvRow)
   let W := captured(callback, r).output
   ensures @fails-on-malformed [C09] result == nil ==> (forall i int :: {RdLine(rd, i)} 0 <= i && i < RdN(rd) ==> !Malformed(rd, i, cc))
   ensures @fails-on-unreadable [C10] result == nil ==> !RdFailed(rd)
